@@ -26,21 +26,11 @@ func ProcessMidiEvents(ctx context.Context, port driver.Port,
 		defer port.Output.Close()
 		portOut := port.Output.SendChannel()
 
-		var ev Event
-		var ok bool
-	root:
-		for {
-			select {
-			case <-ctx.Done():
-				break root
-			case ev, ok = <-midiEventsOut:
-				if !ok {
-					// channel closed on shutdown, there is nothing to forward
-					break root
-				}
-				if ev[0]&0b11110000 == NoteOn {
-					score.Score++
-				}
+		// forwarding continues until the channel is closed, not until ctx is cancelled: devices emit their
+		// shutdown cleanup (Note Off for every note still held) after the cancellation
+		for ev := range midiEventsOut {
+			if ev[0]&0b11110000 == NoteOn {
+				score.Score++
 			}
 
 			portOut <- ev
